@@ -9,12 +9,8 @@ package main
 // R3 error-before-use in every decoder function.
 
 import (
-	"fmt"
-	"go/ast"
 	"go/token"
 	"go/types"
-	"sort"
-	"strings"
 
 	"golang.org/x/tools/go/ssa"
 )
@@ -53,241 +49,6 @@ func checkC07(c *Ctx) {
 	c.Floor("C07.R3", 8)
 }
 
-func ssaFuncName(c *Ctx, f *ssa.Function) string {
-	if f.Parent() != nil {
-		return ssaFuncName(c, f.Parent()) + "$lit"
-	}
-	if obj, ok := f.Object().(*types.Func); ok {
-		return c.P.FuncName(obj)
-	}
-	return f.String()
-}
-
-func decoderRoots(c *Ctx) (roots []*ssa.Function, missing []string) {
-	for _, r := range [][2]string{{"encoding/wkb", "Read"}, {"encoding/wkb", "Decode"}, {"encoding/hex", "Decode"}, {"encoding/geojson", "Decode"}, {"encoding/geojson", "FromGeoJSON"}} {
-		f := c.P.Func(r[0], r[1])
-		sf := c.P.SSAFunc(f)
-		if sf == nil {
-			missing = append(missing, r[0]+"."+r[1])
-			continue
-		}
-		roots = append(roots, sf)
-	}
-	return
-}
-
-// wkbReaders: the functions stored in the reader registry are reachable through
-// a dynamic call; collect them by type (any repo function with the registry's value type).
-func c07reach(c *Ctx) map[*ssa.Function]bool {
-	roots, _ := decoderRoots(c)
-	out := reachStatic(c, roots)
-	if c.Thorough {
-		// thorough: add whatever the whole-program VTA call graph reaches inside the decoder packages
-		// (cross-check of the signature-based resolution of the reader registry)
-		extra := 0
-		for f := range c.P.ReachableRepoFuncs(roots, true) {
-			top := f
-			for top.Parent() != nil {
-				top = top.Parent()
-			}
-			if top.Pkg == nil {
-				continue
-			}
-			pp := top.Pkg.Pkg.Path()
-			if (strings.HasSuffix(pp, "/encoding/wkb") || strings.HasSuffix(pp, "/encoding/hex") || strings.HasSuffix(pp, "/encoding/geojson")) && !out[f] {
-				out[f] = true
-				extra++
-			}
-		}
-		c.Note("thorough: VTA call graph adds %d decoder-package functions to the statically resolved reachable set", extra)
-	}
-	return out
-}
-
-// reachStatic: repo functions reachable through static calls, closures, and
-// dynamic calls of function values resolved to every address-taken repo
-// function of the same package with an identical signature (this resolves the
-// WKB reader registry).  Interface method invocations (io.Reader, error, …) are
-// not followed: the decoders only build geometry values, and the standard
-// library is trusted.
-func reachStatic(c *Ctx, roots []*ssa.Function) map[*ssa.Function]bool {
-	return reachStaticStop(c, roots, nil)
-}
-
-// reachStaticStop is reachStatic that does not enter the functions in stop.
-func reachStaticStop(c *Ctx, roots []*ssa.Function, stop map[*ssa.Function]bool) map[*ssa.Function]bool {
-	// address-taken functions per package
-	taken := map[*ssa.Package][]*ssa.Function{}
-	for _, pk := range c.P.Repo {
-		sp := c.P.SSA.Package(pk.Types)
-		if sp == nil {
-			continue
-		}
-		for _, m := range sp.Members {
-			f, ok := m.(*ssa.Function)
-			if !ok {
-				continue
-			}
-			var all []*ssa.Function
-			var collect func(g *ssa.Function)
-			collect = func(g *ssa.Function) {
-				all = append(all, g)
-				for _, an := range g.AnonFuncs {
-					collect(an)
-				}
-			}
-			collect(f)
-			for _, g := range all {
-				for _, b := range g.Blocks {
-					for _, in := range b.Instrs {
-						for _, op := range in.Operands(nil) {
-							if fv, ok := (*op).(*ssa.Function); ok {
-								// a function used as a value (not as the callee of this call)
-								if call, isCall := in.(ssa.CallInstruction); isCall && call.Common().Value == fv {
-									continue
-								}
-								if fv.Pkg == sp {
-									taken[sp] = append(taken[sp], fv)
-								}
-							}
-						}
-					}
-				}
-			}
-		}
-	}
-	seen := map[*ssa.Function]bool{}
-	var visit func(f *ssa.Function)
-	visit = func(f *ssa.Function) {
-		if f == nil || seen[f] || stop[f] {
-			return
-		}
-		inRepo := false
-		top := f
-		for top.Parent() != nil {
-			top = top.Parent()
-		}
-		if top.Pkg != nil && c.P.IsRepoPkg(top.Pkg.Pkg) {
-			inRepo = true
-		}
-		if !inRepo {
-			return
-		}
-		seen[f] = true
-		for _, an := range f.AnonFuncs {
-			visit(an)
-		}
-		for _, b := range f.Blocks {
-			for _, in := range b.Instrs {
-				call, ok := in.(ssa.CallInstruction)
-				if !ok {
-					continue
-				}
-				cc := call.Common()
-				if cc.IsInvoke() {
-					continue
-				}
-				if g := cc.StaticCallee(); g != nil {
-					visit(g)
-					continue
-				}
-				if _, isBuiltin := cc.Value.(*ssa.Builtin); isBuiltin {
-					continue
-				}
-				// dynamic call of a function value
-				sig, _ := cc.Value.Type().Underlying().(*types.Signature)
-				if sig == nil {
-					continue
-				}
-				for _, g := range taken[top.Pkg] {
-					if types.Identical(g.Signature, sig) {
-						visit(g)
-					}
-				}
-			}
-		}
-	}
-	for _, r := range roots {
-		visit(r)
-	}
-	return seen
-}
-
-func c07taint(c *Ctx) {
-	roots, missing := decoderRoots(c)
-	for _, m := range missing {
-		c.Unk("C07.R1", m, token.NoPos, "API anchor does not resolve")
-	}
-	_ = roots
-	reach := c07reach(c)
-	var funcs []*ssa.Function
-	for f := range reach {
-		if f.Pkg != nil && (strings.HasSuffix(f.Pkg.Pkg.Path(), "/encoding/wkb") || strings.HasSuffix(f.Pkg.Pkg.Path(), "/encoding/hex")) {
-			funcs = append(funcs, f)
-		}
-	}
-	sort.Slice(funcs, func(i, j int) bool { return funcs[i].Pos() < funcs[j].Pos() })
-	if len(funcs) < 8 {
-		c.Unk("C07.R1", "encoding/wkb#reachable", token.NoPos, "only %d WKB/hex functions reachable from the decoder entry points (reader registry not resolved?)", len(funcs))
-	}
-	t := newTaint(c.P, funcs)
-	sources := 0
-	for _, f := range funcs {
-		sources += len(t.inputAllocs[f])
-		perFn := map[string]int{}
-		for _, b := range f.Blocks {
-			for _, in := range b.Instrs {
-				type sink struct {
-					what string
-					v    ssa.Value
-				}
-				var sinks []sink
-				var pos token.Pos
-				var typ string
-				switch x := in.(type) {
-				case *ssa.MakeSlice:
-					sinks = []sink{{"len", x.Len}, {"cap", x.Cap}}
-					pos, typ = x.Pos(), x.Type().String()
-				case *ssa.MakeMap:
-					if x.Reserve != nil {
-						sinks = []sink{{"reserve", x.Reserve}}
-					}
-					pos, typ = x.Pos(), x.Type().String()
-				case *ssa.MakeChan:
-					sinks = []sink{{"size", x.Size}}
-					pos, typ = x.Pos(), x.Type().String()
-				default:
-					continue
-				}
-				typ = strings.ReplaceAll(typ, "github.com/ctessum/", "")
-				perFn[typ]++
-				cons := fmt.Sprintf("%s#make(%s)", ssaFuncName(c, f), typ)
-				if perFn[typ] > 1 {
-					cons = fmt.Sprintf("%s#%d", cons, perFn[typ])
-				}
-				bad := ""
-				for _, s := range sinks {
-					if s.v == nil {
-						continue
-					}
-					if t.tainted[s.v] && !t.bounded(s.v, b, false, 0) {
-						bad = s.what
-					}
-				}
-				if bad != "" {
-					c.Bad("C07.R1", cons, pos, "allocation %s is a count read from the input (binary.Read) and is not bounded at this point: a few bytes of input can demand gigabytes (and on 32-bit platforms a negative length panics)", bad)
-				} else {
-					c.OK("C07.R1", cons, pos, "size is constant, data-derived or bounded")
-				}
-			}
-		}
-	}
-	c.Note("C07.R1: %d functions reachable from the WKB/hex decoders, %d variables written by binary.Read", len(funcs), sources)
-	if sources < 6 {
-		c.Unk("C07.R1", "encoding/wkb#sources", token.NoPos, "only %d binary.Read destinations found, expected at least 6 (taint source model no longer matches the code)", sources)
-	}
-}
-
 // ---------------------------------------------------------------- R2
 
 type panicSite struct {
@@ -298,273 +59,7 @@ type panicSite struct {
 	val  types.Type // for explicit panics: static type of the value
 }
 
-// mayPanicSites lists explicit panics, single-result type assertions and
-// index/slice expressions of one repo function, from its syntax.
-func mayPanicSites(c *Ctx, f *ssa.Function) []panicSite {
-	var out []panicSite
-	var body ast.Node
-	var info *types.Info
-	switch syn := f.Syntax().(type) {
-	case *ast.FuncDecl:
-		body = syn.Body
-	case *ast.FuncLit:
-		body = syn.Body
-	default:
-		return nil
-	}
-	if body == nil {
-		return nil
-	}
-	pk := c.P.PkgOfPos(f.Pos())
-	if pk == nil {
-		return nil
-	}
-	info = pk.TypesInfo
-	commaOK := map[*ast.TypeAssertExpr]bool{}
-	inspectNoLits(body, func(n ast.Node) bool {
-		switch x := n.(type) {
-		case *ast.AssignStmt:
-			if len(x.Lhs) == 2 && len(x.Rhs) == 1 {
-				if ta, ok := unparen(x.Rhs[0]).(*ast.TypeAssertExpr); ok {
-					commaOK[ta] = true
-				}
-			}
-		case *ast.ValueSpec:
-			if len(x.Names) == 2 && len(x.Values) == 1 {
-				if ta, ok := unparen(x.Values[0]).(*ast.TypeAssertExpr); ok {
-					commaOK[ta] = true
-				}
-			}
-		case *ast.TypeSwitchStmt:
-			// x.(type) never panics
-			switch a := x.Assign.(type) {
-			case *ast.ExprStmt:
-				if ta, ok := unparen(a.X).(*ast.TypeAssertExpr); ok {
-					commaOK[ta] = true
-				}
-			case *ast.AssignStmt:
-				if ta, ok := unparen(a.Rhs[0]).(*ast.TypeAssertExpr); ok {
-					commaOK[ta] = true
-				}
-			}
-		}
-		return true
-	})
-	inspectNoLits(body, func(n ast.Node) bool {
-		switch x := n.(type) {
-		case *ast.CallExpr:
-			if builtinName(info, x) == "panic" && len(x.Args) == 1 {
-				out = append(out, panicSite{fn: f, pos: x.Pos(), kind: "panic", desc: src(x), val: info.TypeOf(x.Args[0])})
-			}
-		case *ast.TypeAssertExpr:
-			if x.Type != nil && !commaOK[x] {
-				out = append(out, panicSite{fn: f, pos: x.Pos(), kind: "assert", desc: src(x)})
-			}
-		case *ast.IndexExpr:
-			if tv, ok := info.Types[x.X]; ok {
-				switch tv.Type.Underlying().(type) {
-				case *types.Slice, *types.Array, *types.Basic, *types.Pointer:
-					out = append(out, panicSite{fn: f, pos: x.Pos(), kind: "index", desc: src(x)})
-				}
-			}
-		case *ast.SliceExpr:
-			out = append(out, panicSite{fn: f, pos: x.Pos(), kind: "slice", desc: src(x)})
-		}
-		return true
-	})
-	return out
-}
-
 var errorIface = types.Universe.Lookup("error").Type().Underlying().(*types.Interface)
-
-// recoveringFrames: repo functions that defer a literal which calls recover()
-// and stores into the function's error result.
-func recoveringFrame(c *Ctx, f *ssa.Function) (ok bool, why string) {
-	fd, isDecl := f.Syntax().(*ast.FuncDecl)
-	if !isDecl || fd.Body == nil {
-		return false, ""
-	}
-	pk := c.P.PkgOfPos(f.Pos())
-	info := pk.TypesInfo
-	res := resultVars(info, fd.Type)
-	var errRes types.Object
-	for _, r := range res {
-		if r != nil && isErrorType(r.Type()) {
-			errRes = r
-		}
-	}
-	found := false
-	for _, st := range fd.Body.List {
-		ds, isDefer := st.(*ast.DeferStmt)
-		if !isDefer {
-			continue
-		}
-		lit, isLit := unparen(ds.Call.Fun).(*ast.FuncLit)
-		if !isLit {
-			continue
-		}
-		recovers, setsErr := false, false
-		ast.Inspect(lit.Body, func(n ast.Node) bool {
-			switch x := n.(type) {
-			case *ast.CallExpr:
-				if builtinName(info, x) == "recover" {
-					recovers = true
-				}
-			case *ast.AssignStmt:
-				for _, l := range x.Lhs {
-					if errRes != nil && objOf(info, l) == errRes {
-						setsErr = true
-					}
-				}
-			}
-			return true
-		})
-		if recovers {
-			found = true
-			if errRes == nil {
-				return false, "the recovering function has no named error result to report the panic through"
-			}
-			if !setsErr {
-				return false, "the deferred function recovers but does not set the error result"
-			}
-		}
-	}
-	return found, ""
-}
-
-func c07panics(c *Ctx) {
-	roots, _ := decoderRoots(c)
-	reach := reachStatic(c, roots)
-	// recovering frames among reachable functions
-	frames := map[*ssa.Function]bool{}
-	for f := range reach {
-		if ok, why := recoveringFrame(c, f); ok {
-			frames[f] = true
-		} else if why != "" {
-			c.Bad("C07.R2", ssaFuncName(c, f)+"#recover", f.Pos(), "%s", why)
-		}
-	}
-	// functions reachable from the roots without passing through a recovering frame
-	unprotected := reachStaticStop(c, roots, frames)
-	var fs []*ssa.Function
-	for f := range reach {
-		fs = append(fs, f)
-	}
-	sort.Slice(fs, func(i, j int) bool { return fs[i].Pos() < fs[j].Pos() })
-	counts := map[string]int{}
-	for _, f := range fs {
-		// the deferred recovery literal itself runs outside the protection of its own frame
-		inRecoverLit := f.Parent() != nil && frames[f.Parent()]
-		sites := mayPanicSites(c, f)
-		perKind := map[string]int{}
-		for _, s := range sites {
-			perKind[s.kind+s.desc]++
-			cons := fmt.Sprintf("%s#%s:%s", ssaFuncName(c, f), s.kind, s.desc)
-			if perKind[s.kind+s.desc] > 1 {
-				cons = fmt.Sprintf("%s#%d", cons, perKind[s.kind+s.desc])
-			}
-			counts[s.kind]++
-			protected := !unprotected[f] && !inRecoverLit
-			switch s.kind {
-			case "panic":
-				if !protected {
-					c.Bad("C07.R2", cons, s.pos, "explicit panic reachable from a decoder entry point without a recovering frame above it")
-				} else if s.val == nil || !types.Implements(s.val, errorIface) {
-					c.Bad("C07.R2", cons, s.pos, "the value passed to panic has type %v, which does not implement error: the recovering frame asserts e.(error), so this panic escapes the decoder", s.val)
-				} else {
-					c.OK("C07.R2", cons, s.pos, "recovered above; value implements error")
-				}
-			case "assert":
-				if inRecoverLit {
-					// e.(error) in the recovery: safe iff every explicit panic value below implements error — checked per panic site
-					c.OK("C07.R2", cons, s.pos, "assertion on the recovered value; all explicit panic values below implement error (checked per site), runtime panics are errors")
-				} else if protected {
-					c.OK("C07.R2", cons, s.pos, "a failing assertion raises a runtime error, recovered above")
-				} else {
-					c.Bad("C07.R2", cons, s.pos, "single-result type assertion on decoded data without a recovering frame: malformed input panics")
-				}
-			case "index", "slice":
-				if protected {
-					c.OK("C07.R2", cons, s.pos, "out-of-range raises a runtime error, recovered above")
-				} else if c07indexSafe(c, f, s) {
-					c.OK("C07.R2", cons, s.pos, "index proven in range from the loop bound and the allocation length")
-				} else {
-					c.Bad("C07.R2", cons, s.pos, "index/slice expression in a decoder that is neither proven in range nor below a recovering frame")
-				}
-			}
-		}
-	}
-	c.Note("C07.R2: %d reachable repo functions; %d recovering frame(s); sites: %v", len(reach), len(frames), counts)
-	if len(frames) < 1 {
-		c.Unk("C07.R2", "encoding/geojson#recover", token.NoPos, "no recovering frame found below the decoder entry points")
-	}
-}
-
-// c07indexSafe: x[i] inside `for i := 0; i < N; i++` where x := make(T, N) with the same N.
-func c07indexSafe(c *Ctx, f *ssa.Function, s panicSite) bool {
-	fd, ok := f.Syntax().(*ast.FuncDecl)
-	if !ok {
-		return false
-	}
-	pk := c.P.PkgOfPos(f.Pos())
-	info := pk.TypesInfo
-	sc := newFnScope(info, fd.Body)
-	var ix *ast.IndexExpr
-	ast.Inspect(fd.Body, func(n ast.Node) bool {
-		if e, ok := n.(*ast.IndexExpr); ok && e.Pos() == s.pos {
-			ix = e
-		}
-		return true
-	})
-	if ix == nil {
-		return false
-	}
-	x := objOf(info, ix.X)
-	if x == nil {
-		return false
-	}
-	d := sc.singleDef(x)
-	if d == nil {
-		return false
-	}
-	mk, ok := unparen(d).(*ast.CallExpr)
-	if !ok || builtinName(info, mk) != "make" || len(mk.Args) != 2 {
-		return false
-	}
-	// enclosing three-clause loop with i from 0 while i < N
-	for _, anc := range enclosing(fd.Body, ix) {
-		fs, ok := anc.(*ast.ForStmt)
-		if !ok || fs.Cond == nil {
-			continue
-		}
-		cond, ok := unparen(fs.Cond).(*ast.BinaryExpr)
-		if !ok || cond.Op != token.LSS || objOf(info, cond.X) == nil || objOf(info, cond.X) != objOf(info, ix.Index) {
-			continue
-		}
-		iv := objOf(info, cond.X)
-		if sc.writtenIn(iv, fs.Body) {
-			return false
-		}
-		init, ok := fs.Init.(*ast.AssignStmt)
-		if !ok || len(init.Rhs) != 1 {
-			return false
-		}
-		startOK := false
-		if k, ok := constInt(info, init.Rhs[0]); ok && k == 0 {
-			startOK = true
-		}
-		if call, ok := unparen(init.Rhs[0]).(*ast.CallExpr); ok && len(call.Args) == 1 {
-			if k, ok := constInt(info, call.Args[0]); ok && k == 0 {
-				startOK = true
-			}
-		}
-		nObj := objOf(info, cond.Y)
-		if startOK && nObj != nil && sameExpr(info, cond.Y, mk.Args[1]) && !sc.writtenIn(nObj, fs.Body) {
-			return true
-		}
-	}
-	return false
-}
 
 // ---------------------------------------------------------------- R3
 
